@@ -171,7 +171,15 @@ class Tokenizer:
                         match = self.commentmatcher(possiblecomment)
                         if match and self._doComments:
                             yield ('COMMENT', possiblecomment, line, col)
-                            pos = _len_text  # ate all remaining text
+                            # ate all remaining text
+                            found = text[pos:]
+                            pos = _len_text
+                            nls = found.count(self._linesep)
+                            line += nls
+                            if nls:
+                                col = len(found[found.rfind(self._linesep) :])
+                            else:
+                                col += len(found)
                             break
 
                     match = matcher(text, pos)  # if no match try next production
@@ -192,6 +200,8 @@ class Tokenizer:
                             and text[match.end(0)] == '('
                         ):
                             continue
+                        # the text actually consumed, needed later for line/col
+                        consumed = found
                         if fullsheet:
                             # check if found may be completed into a full token
                             if 'INVALID' == name and suffix_eq(text, pos, found):
@@ -206,6 +216,7 @@ class Tokenizer:
                                     match = self.urimatcher(possibleuri)
                                     if match:
                                         name, found = 'URI', match.group(0)
+                                        consumed = text[pos:]
                                         break
 
                         if name in (
@@ -252,13 +263,16 @@ class Tokenizer:
                         ):
                             yield (name, value, line, col)
 
-                        pos += len(found)
-                        nls = found.count(self._linesep)
+                        if name == CSSProductions.CHARSET_SYM:
+                            # includes the trailing S
+                            consumed = found
+                        pos += len(consumed)
+                        nls = consumed.count(self._linesep)
                         line += nls
                         if nls:
-                            col = len(found[found.rfind(self._linesep) :])
+                            col = len(consumed[consumed.rfind(self._linesep) :])
                         else:
-                            col += len(found)
+                            col += len(consumed)
 
                         break
             # Make sure we didn't accidentally modify text in the process
